@@ -154,7 +154,7 @@ def ps_index(p):
     if p.get("sparse"):
         import scipy.sparse as sps
 
-        Xin = sps.csr_matrix(X)
+        Xin = sps.csr_matrix(X.reshape(1, -1) if kind == "vector" else X)  # a 1-D vector as a 1 x N sparse row
     else:
         Xin = _layout(X, p)
     dim = _dim_arg(p, rd, cd)
@@ -164,8 +164,10 @@ def ps_index(p):
     got = permute_systems(*args)
     if hasattr(got, "toarray"):
         got = got.toarray()
-    if kind == "column":
+    if kind == "column" or (kind == "vector" and p.get("sparse")):
         exp = R.ref_permute(X.ravel(), p["perm"], rd, rd, False, False if p.get("defaults") else p["inv"])
+        if p.get("sparse") and (not isinstance(got, np.ndarray) or got.size != exp.size):
+            raise Violation("permute_systems(sparse vector): returned %s of shape %s for a vector of length %d" % (type(got).__name__, getattr(got, "shape", None), exp.size))
         got = np.asarray(got).ravel()
     else:
         exp = R.ref_permute(X, p["perm"], rd, cd, False if p.get("defaults") else p["row_only"], False if p.get("defaults") else p["inv"])
